@@ -316,6 +316,24 @@ impl<'a> G<'a> {
         Some(d)
     }
 
+    /// `(fec, Z, T, F)` with F = Z*T*k + r: every residue r for small Z, a sample incl. 1 and Z-1 for big Z
+    fn raptor_edge_grid() -> Vec<(u8, u64, u64, u64)> {
+        let mut v = Vec::new();
+        for (fec, zs) in [(6u8, vec![2u64, 3, 7, 255]), (1u8, vec![2u64, 3, 1000])] {
+            for z in zs {
+                let rs: Vec<u64> = if z <= 7 { (0..z).collect() } else { vec![0, 1, 2, z / 2, z - 2, z - 1] };
+                for t in [4u64, 1400] {
+                    for k in [1u64, 150] {
+                        for r in &rs {
+                            v.push((fec, z, t, z * t * k + r));
+                        }
+                    }
+                }
+            }
+        }
+        v
+    }
+
     fn rand_time(&mut self) -> u64 {
         let secs = match self.rng.below(6) {
             0 => 0,
@@ -557,6 +575,40 @@ impl<'a> G<'a> {
                 s.r3926 = us % 2 == 1;
                 self.do_pkt(&s, false);
             }
+        }
+        // sender clock around and beyond the end of NTP era 0: the packet must stay well formed (only the SCT value
+        // is relaxed by the oracle), with / without EXT_FDT and EXT_FTI behind the EXT_TIME
+        self.ctx.case("pkt/sct-era");
+        let day = 86_400u64 * 1_000_000;
+        let era = (ERA_END_SECS + 1) * 1_000_000; // 2036-02-07T06:28:16Z, NTP seconds = 2^32
+        let mut k = 0usize;
+        for sct in [era - 1_000_000, era, era + 1, era + day, (1u64 << 33) * 1_000_000, 4_102_444_800u64 * 1_000_000] {
+            for fdt in [true, false] {
+                for inband in [true, false] {
+                    let fec = FECS[k % 6];
+                    k += 1;
+                    let mut s = if fdt { PktSpec::fdt_pkt(fec, 77) } else { PktSpec::new(fec) };
+                    s.oti.inband = inband;
+                    s.sct = Some(sct);
+                    s.r3926 = k % 4 == 0;
+                    s.ibc = k % 3 == 0;
+                    s.cenc = (k % 4) as u8;
+                    s.payload = self.rng.bytes(5);
+                    self.ctx.nontrivial(&format!("pkt-sct-era:{}:{}:{}:{}", sct, fdt, inband, fec));
+                    self.do_pkt(&s, false);
+                }
+            }
+        }
+        // Raptor / RaptorQ: the receiver derives the maximum source block length ceil(ceil(F/Z)/T) from the EXT_FTI;
+        // F = Z*T*k + r over the residues r of Z (the rounding edge is 0 < r < Z)
+        self.ctx.case("pkt/raptor-block-edge");
+        for (fec, z, t, f) in Self::raptor_edge_grid() {
+            let mut s = PktSpec::new(fec);
+            s.oti.ss = Some((if fec == 6 { 1 } else { 2 }, z as u32, 1, 4));
+            s.oti.e = t as u16;
+            s.tl = f;
+            self.ctx.nontrivial(&format!("raptor-edge:pkt:{}:{}:{}:{}", fec, z, t, f));
+            self.do_pkt(&s, false);
         }
         // b5. inputs on which the builder's assertions fire (model correspondence only)
         self.ctx.case("pkt/builder-asserts");
@@ -837,6 +889,15 @@ impl<'a> G<'a> {
                     self.spec_ops(&d, &f, true);
                 }
             }
+        }
+
+        // Raptor / RaptorQ block-length rounding edge in packets of the independent encoder
+        self.ctx.case("spec/raptor-block-edge");
+        for (fec, z, t, f) in Self::raptor_edge_grid() {
+            let exts = vec![rd::encode_fti(fec, &[f, t, z, 1, 4]).unwrap()];
+            let (d, fl) = self.spec_bytes(fec, 0, 9, 5, (0, 0, 0, 1), 0, 0, 0, exts);
+            self.ctx.nontrivial(&format!("raptor-edge:spec:{}:{}:{}:{}", fec, z, t, f));
+            self.spec_ops(&d, &fl, false);
         }
 
         // c2. every legal width choice (minimal and non-minimal) for values of every width class
